@@ -69,3 +69,63 @@ REPLAYERS = {
     "pyanalyze.options.ConfigOption.get_value_from_instances": r_get_value,
     "pyanalyze.options.ConcatenatedOption.get_value_from_instances": r_concat,
 }
+
+
+def _realise_value(v):
+    if v is None:
+        return None
+    if isinstance(v, (int, bool, str)):
+        return v
+    if isinstance(v, list):
+        return [_realise_value(x) for x in v]
+    if isinstance(v, dict):
+        if "$const" in v or "$str" in v:
+            return s(v)
+        if "$dict" in v:
+            return {_realise_value(k): _realise_value(x) for k, x in v["$dict"]}
+        cls = v.get("$class")
+        return {"str": "s", "bool": True, "int": 1, "list": [], "tuple": (), "dict": {}, "NoneType": None}.get(cls, 1.5)
+    return 1.5
+
+
+def r_parse_section(rec):
+    """Replays the model's section natively; then checks the contract's postconditions on the real
+    result: priority floor and the 'rejected rather than ignored' rules."""
+    from pathlib import Path
+    from pyanalyze.options import ConfigOption, InvalidConfigOption, _parse_config_section
+    i = rec.get("inputs") or {}
+    section = _realise_value(i["section"]) if isinstance(i.get("section"), dict) else {}
+    mp = strs(i.get("module_path"))
+    prio = i.get("priority") if isinstance(i.get("priority"), int) else 0
+    # A counter-model of an inductive step names abstract keys "in the registry"; realise them as one
+    # real registered option (unknown keys would be rejected up front and mask what the model shows).
+    special = ("module", "extend_config", "overrides", "disable_all")
+    if rec.get("kind", "").startswith("inv") or rec.get("kind") == "safety":
+        section = {k: v for k, v in section.items() if k in special or k in ConfigOption.registry}
+        section.setdefault("undefined_name", True)
+        if "module" in section and not isinstance(section["module"], str):
+            section["module"] = "m"
+        if mp == () and "module" in section:
+            mp = ("m",)
+    try:
+        out = list(_parse_config_section(section, mp, path=Path("/nonexistent/pyproject.toml"), priority=prio, seen_paths=frozenset()))
+    except InvalidConfigOption as e:
+        return False, f"_parse_config_section({section!r}, {mp!r}, priority={prio}) raised InvalidConfigOption({e}) - rejected, as specified"
+    problems = []
+    if any(o.priority < prio for o in out):
+        problems.append(f"instances below the file's priority {prio}: {[ (o.name, o.priority) for o in out if o.priority < prio][:3]}")
+    if "disable_all" in section and not isinstance(section["disable_all"], bool):
+        problems.append(f"non-bool disable_all={section['disable_all']!r} accepted")
+    if "module" in section and mp == ():
+        problems.append("top-level 'module' accepted")
+    if "extend_config" in section and not isinstance(section["extend_config"], str):
+        problems.append("non-string extend_config accepted")
+    if "overrides" in section and (mp != () or not isinstance(section["overrides"], (list, tuple))):
+        problems.append("nested / non-list overrides accepted")
+    for k in section:
+        if k not in ("module", "extend_config", "overrides", "disable_all") and k not in ConfigOption.registry:
+            problems.append(f"unknown key {k!r} accepted")
+    return bool(problems), f"_parse_config_section({section!r}, {mp!r}, priority={prio}) returned {len(out)} instances; " + ("; ".join(problems) or "postconditions hold")
+
+
+REPLAYERS["pyanalyze.options._parse_config_section"] = r_parse_section
